@@ -87,6 +87,16 @@ var (
 		Text: "ERR.1 on the VM→host path every fmt.Errorf that receives an error formats it with %w; ERR.2 the engine's sentinel errors are never compared-and-replaced, and every error-handling block of the VM/indexAssign ends by passing the callee's error on unchanged"}
 	rPOS1 = &Rule{Name: "POS.1", Floor: 6, Fn: rulePOS1,
 		Text: "emit stores a source-map entry keyed by the offset addInstruction returned and returns that offset; no emit site passes a nil node; OpCall saves the caller's ip before switching frames; Run looks up ip-1 of the failing frame and the saved ip-1 of each caller, innermost first"}
+	rADPT1 = &Rule{Name: "ADPT.1", Floor: 44, Fn: ruleADPT1,
+		Text: "every FuncA…R… adapter, read from the type of its fn parameter: rejects len(args) != NumParams with ErrWrongNumArguments; converts args[i] with the To* function whose result type is parameter i's type (rejecting failures with ErrInvalidArgumentType); calls fn with the converted values in parameter order; builds the object matching fn's result type; surfaces a Go error as wrapError(err) value"}
+	rADPT2 = &Rule{Name: "ADPT.2", Floor: 140, Fn: ruleADPT2,
+		Text: "every module-table entry bound to an external Go function or constant has the key that names it (snake_case of the function, lower-camel/lower of the constant, format_<snake> for time layouts, <variant>_<verb> for encodings); UserFunction.Name equals the key"}
+	rADPT3 = &Rule{Name: "ADPT.3", Floor: 50, Fn: ruleADPT3,
+		Text: "every hand-written wrapper of times/text calls a Go function named like its key (exception table), feeds script arguments to it in positional order (receiver first), and has a decidable argument-count guard"}
+	rADPT4 = &Rule{Name: "ADPT.4", Floor: 200, Fn: ruleADPT4,
+		Text: "the functions documented in docs/stdlib-{text,math,times,base64,hex}.md equal the function keys of the module tables, and each documented parameter count is accepted by the implementation (finite-domain evaluation of the len(args) guard)"}
+	rADPT5 = &Rule{Name: "ADPT.5", Floor: 9, Fn: ruleADPT5,
+		Text: "the enum source module embedded in source_modules.go equals srcmod_enum.tengo; BuiltinModules binds each module name to the table of the same stem"}
 )
 
 func allProperties() []*Property {
@@ -151,6 +161,10 @@ func allProperties() []*Property {
 			Decided:    "the VM's tail-call predicate is exactly 'next is RET or POP;RET'; the reuse path grows no frame and overwrites parameter slots directly; the compiler places RET directly after the documented tail positions.",
 			NotDecided: "that deep recursion terminates with the right value.",
 			Rules:      []*Rule{rTAIL, rCODEC3}},
+		{ID: "C19",
+			Decided:    "the wiring of the stdlib modules: adapters do what their function type says; table keys name the Go function/constant they wrap; hand-written wrappers call the function their key names with arguments in order; documentation and tables agree; generated source is in sync.",
+			NotDecided: "the Go functions' results (they are the specification); value-level behaviour of hand-written wrappers (size limits, defaults).",
+			Rules:      []*Rule{rADPT1, rADPT2, rADPT3, rADPT4, rADPT5}},
 		{ID: "C12",
 			Decided:    "constant re-indexing covers exactly the opcodes through which the VM reads the constant pool, with the operand layout of the tables.",
 			NotDecided: "behavioural equality after de-duplication / gob round trip.",
